@@ -29,7 +29,6 @@ func CreateSavepointArtifact(fs locations.StorageLocation, savepointsPath string
 		if err != nil {
 			return "", err
 		}
-		files = append(files, opCkpt.DkvFileUri) // include checkpoints uri
 
 		for _, file := range files {
 			opID, baseFileName, err := parseDKVURI(file)
@@ -42,6 +41,19 @@ func CreateSavepointArtifact(fs locations.StorageLocation, savepointsPath string
 			if err := fs.Copy(file, dst); err != nil {
 				return "", err
 			}
+		}
+
+		// The checkpoints file is rewritten by its operator with every checkpoint
+		// and retention update, unlike the files it references. Store the content
+		// that was read above (the list of files was taken from it) instead of
+		// copying the live file, which fails when it is replaced during the copy.
+		opID, baseFileName, err := parseDKVURI(opCkpt.DkvFileUri)
+		if err != nil {
+			return "", fmt.Errorf("parsing uri while creating savepoint: %v", err)
+		}
+		dst := filepath.Join(savepointsPath, pathSegment(snapshot.id), "dkv", opID, baseFileName)
+		if _, err := fs.Write(dst, bytes.NewReader(checkpointsData)); err != nil {
+			return "", err
 		}
 	}
 
